@@ -147,7 +147,57 @@ pub fn limb_key(i: u64) -> Vec<u8> {
     be
 }
 
+/// Scalars k for which k*G1 / k*G2 (generators) has a compressed encoding whose coordinate begins with an EXTREME
+/// 32-bit word: the field modulus' own leading word 0x1a0111ea ("max": the coordinate is within 2^-32 of p) or
+/// zero ("min": the coordinate is below 2^349). About one point in 2^31 is of either kind; these were found once
+/// by an exhaustive walk over k = 1 .. 6.4e9 (G1) / 2.4e9 (G2) with a stand-alone tool (DESIGN.md §4, C15) and are
+/// re-verified at start-up by `edge_scalars_selfcheck`. Word-wise range checks on point encodings meet their
+/// boundary here and nowhere that uniform sampling reaches.
+pub const EDGE_SCALARS_G1: [(u64, bool); 9] = [
+    (4031123246, true),
+    (51858613, true),
+    (1794600982, true),
+    (556030, false),
+    (5654006264, false),
+    (1698185614, false),
+    (6199176355, false),
+    (2606223813, false),
+    (3415688923, false),
+];
+pub const EDGE_SCALARS_G2: [(u64, bool); 0] = [];
+/// the edge scalars whose multiple of the generator of the group with `point_len`-byte encodings is extreme
+pub fn edge_scalars(point_len: usize) -> Vec<u64> {
+    if point_len == 48 {
+        EDGE_SCALARS_G1.iter().map(|e| e.0).collect()
+    } else {
+        EDGE_SCALARS_G2.iter().map(|e| e.0).collect()
+    }
+}
+/// k * generator of the group with `point_len`-byte encodings, compressed
+pub fn edge_point(point_len: usize, k: u64) -> Vec<u8> {
+    let g = if point_len == 48 { refimpl::Pt::gen1() } else { refimpl::Pt::gen2() };
+    g.mul(&refimpl::scalar_from_u64(k)).to_bytes()
+}
+pub fn edge_scalars_selfcheck() -> Result<(), String> {
+    let word = |b: &[u8]| u32::from_be_bytes([b[0] & 0x1f, b[1], b[2], b[3]]);
+    for (len, table) in [(48usize, EDGE_SCALARS_G1.to_vec()), (96, EDGE_SCALARS_G2.to_vec())] {
+        for (k, max) in table {
+            let e = edge_point(len, k);
+            let want = if max { 0x1a0111ea } else { 0 };
+            if !(word(&e[0..4]) == want || (len == 96 && word(&e[48..52]) == want)) {
+                return Err(format!("edge scalar {} (len {}) does not have the recorded encoding property", k, len));
+            }
+        }
+    }
+    Ok(())
+}
+
 pub fn key_of_class(rec: &mut kernel::rec::Rec, lib: &dyn Lib, g: Grp, class: u64, salt: u64) -> Vec<u8> {
+    if class >= LIMB_KEY_BASE + LIMB_KEYS {
+        // edge-encoding keys: both tables, whichever group the public key lives in
+        let all: Vec<u64> = EDGE_SCALARS_G1.iter().chain(EDGE_SCALARS_G2.iter()).map(|e| e.0).collect();
+        return refimpl::scalar_to_be(&refimpl::scalar_from_u64(all[((class - LIMB_KEY_BASE - LIMB_KEYS) as usize) % all.len()]));
+    }
     if class >= LIMB_KEY_BASE {
         return limb_key(class - LIMB_KEY_BASE);
     }
